@@ -346,6 +346,7 @@ pub fn run(ctx: &Ctx) {
             }
         }
     }
+    super::modes::run(ctx);
     sweep_list(ctx, "multi_address_mesh", &multi, SweepOpts { chunk: 1, ..Default::default() }, run_multi_addr);
     let m = Router { n: 3, plain: false, normal_mode: false };
     let res = explore::explore(
@@ -392,6 +393,7 @@ pub fn run(ctx: &Ctx) {
 pub fn replay(family: &str, case: &Value) -> Option<CaseResult> {
     match family {
         "outsiders" => replay_with::<OutsiderCase>(case, run_outsider),
+        "mode_matrix" => replay_with::<super::modes::ModeCase>(case, super::modes::run_case),
         "multi_address_mesh" => replay_with::<MultiAddrCase>(case, run_multi_addr),
         f if f.starts_with("isolation_router") => {
             let hist: Vec<Ev> = serde_json::from_value(case["history"].clone()).ok()?;
